@@ -305,8 +305,9 @@ def cases(rng, tier):
     streams.append(gen.seed_cases(rng.fork("seed"), tier))
     streams.append(gen.hash_cases(rng.fork("hash"), tier))
     streams.append(gen.race_cases(rng.fork("race"), tier))
+    streams.append(gen.alias_cases(rng.fork("alias"), tier))
     if only:
-        streams = [st for st, nm in zip(streams, ["corpus", "chains", "term", "tail", "seed", "hash", "race"]) if nm in only.split(",")]
+        streams = [st for st, nm in zip(streams, ["corpus", "chains", "term", "tail", "seed", "hash", "race", "alias"]) if nm in only.split(",")]
     return interleave(*streams)
 
 
